@@ -88,6 +88,17 @@ theorem face_cps : faceCps.size = 12 ∧ cpsTable 3 faceContact faceN 12 = .ok f
   refine ⟨rfl, ?_⟩
   decide +kernel
 
+set_option maxRecDepth 100000 in
+theorem star_witnesses : starOK (plansOfObjs faceContact) (geomArrays faceContact) = true ∧
+    starOK (plansOfObjs edgeContact) (geomArrays edgeContact) = false ∧
+    starOK (plansOfObjs cornerContact) (geomArrays cornerContact) = false := by
+  refine ⟨?_, ?_, ?_⟩ <;> decide +kernel
+
+set_option maxRecDepth 100000 in
+theorem guards_witnesses : wellOrderedB (plansOfObjs edgeContact) = true ∧ noJunkB (plansOfObjs edgeContact) = true ∧
+    wellOrderedB (plansOfObjs faceContact) = true ∧ noJunkB (plansOfObjs faceContact) = true := by
+  refine ⟨?_, ?_, ?_, ?_⟩ <;> decide +kernel
+
 theorem face_points_nonjunk : ∀ p ∈ (faceContact.map (·.cps)).flatMap (·.data.toList), p ≠ (default : List ℚ) := by
   decide +kernel
 
